@@ -239,7 +239,13 @@ def work(case):
             from sharepoint2text import cli
             from sharepoint2text.parsing.extractors.serialization import serialize_extraction
             for args, binary, unit in ((["--json"], False, False), (["--json", "--binary"], True, False), (["--json-unit"], False, True)):
-                so, se = io.StringIO(), io.StringIO()
+                # stdout as a real encoded text stream (strict UTF-8, what a terminal or a pipe is): a StringIO would accept text
+                # that no stream can carry
+                class _Utf8Out(io.TextIOWrapper):
+                    def getvalue(self):
+                        self.flush()
+                        return self.buffer.getvalue().decode("utf-8")
+                so, se = _Utf8Out(io.BytesIO(), encoding="utf-8", errors="strict", write_through=True), io.StringIO()
                 old = sys.stdout, sys.stderr
                 sys.stdout, sys.stderr = so, se
                 try:
@@ -412,11 +418,12 @@ def gen_cases(run):
     # inputs for this check only: a binary payload larger than any fixture holds, raw 8-bit bytes in every mail header
     sources.setdefault("rtf", []).append(["synth", "rtf-big-picture"])
     sources.setdefault("mbox", []).append(["synth", "mbox-raw-8bit-headers"])
+    sources.setdefault("zip", []).append(["synth", "tar-latin1-member-names"])
     cid = 0
     for kind in corpus.KINDS:
         for src in sources.get(kind, []):
             cid += 1
-            yield {"id": cid, "part": "results", "kind": kind, "recipe": {"src": src, "op": None}, "cli": cid % (2 if run.quick else 3) == 0 or src[0] == "fx"}
+            yield {"id": cid, "part": "results", "kind": kind, "recipe": {"src": src, "op": None}, "cli": cid % (2 if run.quick else 3) == 0 or src[0] in ("fx", "synth")}
     core_path = os.environ.get("VERIF_REPO", "/repo")
     sys.path.insert(0, core_path)
     from sharepoint2text.parsing.extractors import serialization
